@@ -385,6 +385,9 @@ class Engine:
         self.notes = {}          # per-path scratch space for harnesses
         self.keep = -1
         self.scopes = 0
+        self.export = None       # list of (smt2 text, z3 verdict) for the second-solver cross-check, or None
+        self.export_cap = 0
+        self.export_seen = 0
 
     # -- variables ---------------------------------------------------------
     def _new(self, name, mk, *cons):
@@ -471,6 +474,8 @@ class Engine:
             if es:
                 self.solver.pop()
         st.solver_s += _time.perf_counter() - t0
+        if self.export is not None and r in ('sat', 'unsat'):
+            self._export(es, r)
         if r == 'sat':
             st.sat += 1
             if not es:
@@ -481,6 +486,20 @@ class Engine:
             return False, None
         st.unknown += 1
         raise Unsupported('solver answered unknown')
+
+    def _export(self, es, verdict):
+        """Keep the query just answered (whole assertion stack + es) as SMT-LIB2 text for the second solver.
+        Every stride-th query is kept so that the cap spreads over the whole exploration."""
+        self.export_seen += 1
+        if len(self.export) >= self.export_cap or (self.export_seen - 1) % self.export_stride:
+            return
+        tmp = z3.Solver()
+        tmp.add(self.solver.assertions())
+        for e in es:
+            tmp.add(e)
+        self.export.append((tmp.to_smt2(), verdict))
+
+    export_stride = 1
 
     # -- decisions ---------------------------------------------------------
     def _same_term(self, recorded, now):
